@@ -346,7 +346,11 @@ func GetLoadSsm(segkey string, qid uint64) (*SegmentMicroIndex, error) {
 		return nil, utils.TeeErrorf("qid=%v, seg file %+v does not exist in block meta, but existed in time filtering", qid, segkey)
 	}
 
-	if !smi.loadedSearchMetadata {
+	smi.smiLock.RLock()
+	loaded := smi.loadedSearchMetadata
+	smi.smiLock.RUnlock()
+
+	if !loaded {
 		err := smi.loadSearchMetadata()
 		if err != nil {
 			return nil,
@@ -397,7 +401,17 @@ func GetSearchInfoAndSummary(segkey string) (*structs.AllBlksMetaInfo, []*struct
 	smi, ok := GetMicroIndex(segkey)
 	if ok {
 		smi.smiLock.RLock()
-		defer smi.smiLock.RUnlock()
+		if smi.isSearchMetadataLoaded() {
+			allBmi, blockSum := smi.BlockSearchInfo, smi.BlockSummaries
+			smi.smiLock.RUnlock()
+			return allBmi, blockSum, nil
+		}
+		smi.smiLock.RUnlock()
+
+		// the load below writes the smi: take the write lock and look again,
+		// another search may have loaded it in the meantime
+		smi.smiLock.Lock()
+		defer smi.smiLock.Unlock()
 
 		if smi.isSearchMetadataLoaded() {
 			return smi.BlockSearchInfo, smi.BlockSummaries, nil
